@@ -7,6 +7,8 @@
   code (decodable or not). `payload_read` ties the list back to the bytes on disk.
 -/
 import TdfProofs.Lemmas.Layout
+import TdfProofs.Lemmas.ReadBack
+import TdfProofs.Properties.C02
 namespace Tdf.C04
 
 def lookup (l : Lay) (t : Nat) : Option LBlock := l.bs.find? (fun x => x.typ == t)
@@ -121,5 +123,30 @@ theorem replace_comment (l : Lay) (ok : l.Ok) (b : BlkArg) (c : Option Str) (now
 theorem stored_bytes (l : Lay) (ok : l.Ok) (pre post : List LBlock) (x : LBlock) (hbs : l.bs = pre ++ x :: post) :
     payloadOf l.state (liveEntry (tableStart l.n + (dataOf pre).length) x) = x.payload :=
   payload_read l ok pre post x hbs
+
+/-- "reading it returns content equal to what was stored": any valid block found in a well-formed
+    file (whoever wrote it) is returned by lookup-by-type + decode exactly as stored -/
+theorem read_returns_stored (l : Lay) (ok : l.Ok) (pre post : List LBlock) (x : LBlock) (b : Wire.AnyBlock)
+    (hbs : l.bs = pre ++ x :: post) (hpre : ∀ y ∈ pre, y.typ ≠ x.typ)
+    (hv : b.valid = true) (htyp : x.typ = b.typ) (hfmt : x.fmt = b.fmt) (hpl : x.payload = b.enc) :
+    getBlock l.state x.typ = some b := read_back l ok pre post x b hbs hpre hv htyp hfmt hpl
+
+/-- … in particular right after it was added through the container (the object and the file are the
+    L0 state produced by `add_block`) -/
+theorem read_after_add (l : Lay) (ok : l.Ok) (b : Wire.AnyBlock) (c : Str) (now cd md : Int)
+    (hv : b.valid = true) (hne : l.fs ≠ []) (hdup : l.hasType b.typ = false)
+    (hfit : l.eod + b.size < 2147483648)
+    (hchk : checkArg (C02.argOf b.typ b cd md) c now = .ok b.enc) :
+    getBlock (addBlock l.state (C02.argOf b.typ b cd md) c now).1 b.typ = some b := by
+  have ht : b.typ ≠ 0 := by cases b <;> simp [Wire.AnyBlock.typ]
+  have hsim := add_sim l ok (C02.argOf b.typ b cd md) c now b.enc hne hdup ht hchk (C02.written_any b hv) hfit
+  rw [hsim.1]
+  simp only
+  have hpre : ∀ y ∈ l.bs, y.typ ≠ b.typ := by
+    intro y hy heq
+    simp only [Lay.hasType, List.any_eq_false, beq_iff_eq] at hdup
+    exact hdup y hy heq
+  exact read_back _ hsim.2 l.bs [] (newBlock (C02.argOf b.typ b cd md) b.enc c now) b
+    (by simp [Lay.add]) hpre hv rfl rfl rfl
 
 end Tdf.C04
